@@ -19,7 +19,7 @@ import random
 # ----------------------------------------------------------------------------------------------
 # kinds of positions: what a wrong-typed replacement looks like
 WRONG = {"bool": "42", "int": "true", "time": "true", "bit": "42", "str": "42", "sev": "42", "rec": "42", "enum": "42"}
-WRONG_CODES = {"bool": {"TypeMismatch", "NoImplicitConversion"}}
+WRONG_CODES = {"bool": {"TypeMismatch", "NoImplicitConversion"}, "resfn": {"TypeMismatch", "MismatchedKinds"}}
 
 PKG = """package tp{k} is
   type color_t is (red, green, blue);
@@ -136,6 +136,72 @@ end architecture;
 """
 
 
+# subtype indications / constraints in every carrier (index constraints, element constraints after `(open)`, record element
+# constraints, range constraints, resolution indications; subtype / object / interface / element / access / allocator /
+# alias declarations)
+PKG2 = """package sp{k} is
+  type vec_t is array (natural range <>) of bit;
+  type mat_t is array (natural range <>) of vec_t;
+  type cube_t is array (natural range <>) of mat_t;
+  type rec_t is record
+    data : vec_t;
+    n : integer;
+  end record;
+  type rec_arr_t is array (natural range <>) of rec_t;
+  type vec_ptr_t is access vec_t;
+  constant lo_c : integer := 0;
+  constant hi_c : integer := 7;
+  function resolve_bit (v : vec_t) return bit;
+end package;
+package body sp{k} is
+  function resolve_bit (v : vec_t) return bit is
+  begin
+    return '0';
+  end function;
+end package body;
+"""
+USER2 = """library {lib};
+use {lib}.sp{k}.all;
+entity se{k} is
+  port (p1 : in vec_t(<<int|0>> to <<int|3>>); p2 : in mat_t(open)(<<int|0>> to <<int|1>>); p3 : in integer range <<int|0>> to <<int|hi_c>>);
+end entity;
+architecture a of se{k} is
+  subtype a1_t is vec_t(<<int|0>> to <<int|7>>);
+  subtype a2_t is mat_t(<<int|0>> to <<int|1>>)(<<int|lo_c>> to <<int|hi_c>>);
+  subtype a3_t is mat_t(open)(<<int|0>> to <<int|3>>);
+  subtype a4_t is cube_t(<<int|0>> to 1)(open)(<<int|0>> to <<int|hi_c>>);
+  subtype a5_t is rec_t(data(<<int|0>> to <<int|3>>));
+  subtype a6_t is rec_arr_t(open)(data(<<int|1>> to <<int|hi_c>>));
+  subtype r1_t is integer range <<int|0>> to <<int|hi_c>>;
+  subtype rs_t is <<resfn|resolve_bit>> bit;
+  signal s1 : vec_t(<<int|0>> to <<int|3>>);
+  signal s2 : mat_t(open)(<<int|0>> to <<int|3>>);
+  signal s3 : <<resfn|resolve_bit>> bit;
+  constant c1 : vec_t(<<int|0>> to <<int|1>>) := "00";
+  type elem_rec_t is record
+    f : vec_t(<<int|0>> to <<int|3>>);
+    g : integer range <<int|0>> to <<int|9>>;
+    h : mat_t(open)(<<int|0>> to <<int|1>>);
+  end record;
+  type ptr2_t is access vec_t(<<int|0>> to <<int|7>>);
+  type ptr3_t is access mat_t(open)(<<int|0>> to <<int|7>>);
+  alias al1 : vec_t(<<int|0>> to <<int|1>>) is s1(0 to 1);
+begin
+  pr : process
+    variable v1 : mat_t(open)(<<int|0>> to <<int|3>>);
+    variable v2 : rec_t(data(<<int|0>> to <<int|hi_c>>));
+    variable v3 : integer range <<int|lo_c>> to <<int|hi_c>>;
+    variable pp : vec_ptr_t;
+    variable v4 : rec_arr_t(<<int|0>> to <<int|1>>)(data(<<int|0>> to <<int|3>>));
+  begin
+    pp := new vec_t(<<int|0>> to <<int|hi_c>>);
+    wait;
+  end process;
+end architecture;
+"""
+WRONG["resfn"] = "hi_c"
+
+
 def parse_sites(text):
     """-> (plain text, [(kind, start offset, end offset)]) with the markers removed"""
     out = []
@@ -162,18 +228,22 @@ def line_col(text, off):
     return line, col
 
 
-def expr_programs(k, r, per_kind):
-    """base program + planted variants: [(pid, lib, files, expectation or None)]"""
-    lib = "xl%d" % k
-    pkg = PKG.format(k=k)
-    user_plain, sites = parse_sites(USER.format(k=k, lib=lib))
-    progs = [("x%d.base" % k, lib, [("x_pkg.vhd", pkg), ("x_user.vhd", user_plain)], None)]
+def expr_programs(k, r, per_kind, which=1):
+    """base program + planted variants: [(pid, lib, files, expectation or None)]; which = 1: statements, 2: subtype indications"""
+    lib = ("xl%d" if which == 1 else "yl%d") % k
+    pkg = (PKG if which == 1 else PKG2).format(k=k)
+    user_plain, sites = parse_sites((USER if which == 1 else USER2).format(k=k, lib=lib))
+    tagp = "x" if which == 1 else "y"
+    progs = [("%s%d.base" % (tagp, k), lib, [("x_pkg.vhd", pkg), ("x_user.vhd", user_plain)], None)]
     chosen = list(range(len(sites)))
     r.shuffle(chosen)
     # the optional parts that are easiest to forget come first in every run: exit / next with a loop label
     lines = user_plain.split("\n")
     def labelled(si):
         l = lines[line_col(user_plain, sites[si][1])[0]].strip()
+        if "(open)" in l:
+            # an element constraint after `(open)`: the site lies behind the (open)
+            return sites[si][1] > user_plain.index("(open)", user_plain.rfind("\n", 0, sites[si][1]) + 1)
         return l.startswith(("exit ", "next ")) and not l.startswith(("exit when", "next when"))
     chosen = [si for si in chosen if labelled(si)] + [si for si in chosen if not labelled(si)]
     n = 0
@@ -187,7 +257,7 @@ def expr_programs(k, r, per_kind):
             # a wrong-typed operand / actual of an overloaded call / case expression may be blamed at the operator, the
             # callee or the choices: the oracle for wrong_type is "an error of these codes on the lines of the statement"
             span = 3 if user_plain.split("\n")[line].strip().startswith(("case ", "with ")) else 0
-            progs.append(("x%d.s%d.%s" % (k, si, fault), "%s_%d" % (lib, n),
+            progs.append(("%s%d.s%d.%s" % (tagp, k, si, fault), "%s_%d" % (lib, n),
                           [("x_pkg.vhd", pkg), ("x_user.vhd", text.replace("%s." % lib, "%s_%d." % (lib, n)).replace("library %s;" % lib, "library %s_%d;" % (lib, n)))],
                           {"fault": fault, "kind": kind, "file": "x_user.vhd", "line": line, "col": col, "len": len(repl),
                            "codes": sorted(codes | ({"Unresolved", "AmbiguousCall"} if fault == "wrong_type" else set())),
@@ -362,10 +432,12 @@ def all_programs(seed_, tier):
     progs = []
     if tier == "quick":
         progs += expr_programs(0, r, 24)
+        progs += expr_programs(0, r, 14, which=2)
         progs += dup_programs(0, r, 16)
     else:
         for k in range(6):
             progs += expr_programs(k, r, 200)
+            progs += expr_programs(k, r, 200, which=2)
         for k in range(3):
             progs += dup_programs(k, r, len(DUP_CASES))
     return progs
